@@ -62,7 +62,8 @@ def history_strategy(max_ops=30, backends=("fs", "fsc", "mem"), overrides=False,
             S.scalar, S.nd(), S.frame(), S.series(),
             st.lists(S.scalar, max_size=3).map(lambda v: {"t": "list", "v": v}),
         )
-        pool = [sc["small"], sc["small2"], {"t": "int", "v": "7"}, {"t": "list", "v": []}, sc["none"]]
+        part = {"t": "impart", "v": {"a": sc["small"], "b": {"t": "int", "v": "7"}}}
+        pool = [sc["small"], sc["small2"], {"t": "int", "v": "7"}, {"t": "list", "v": []}, sc["none"], part]
         for _ in range(n):
             # 60%: stay on the most recently touched key
             if draw(st.integers(0, 9)) < 6:
@@ -77,8 +78,10 @@ def history_strategy(max_ops=30, backends=("fs", "fsc", "mem"), overrides=False,
                    "read_meta", "isall", "getmany", "reopen", "reopen"]
                 + ["forget_function", "forget_everything"]))
             if kind == "memoize":
-                cls = draw(st.sampled_from(["val", "val", "third", "third", "fit", "over", "over", "nd_over", "nd_third", "nd_third"]))
-                if cls == "val":
+                cls = draw(st.sampled_from(["val", "val", "third", "third", "fit", "over", "over", "nd_over", "nd_third", "nd_third", "part"]))
+                if cls == "part":
+                    v = {"t": draw(st.sampled_from(["impart", "impart", "odpart"])), "v": {"a": sc["small"], "b": draw(st.sampled_from([sc["small2"], {"t": "int", "v": "7"}]))}}
+                elif cls == "val":
                     v = draw(st.sampled_from(pool)) if pool_values else draw(small_vals)
                 else:
                     v = sc[cls]
@@ -109,6 +112,7 @@ def history_strategy(max_ops=30, backends=("fs", "fsc", "mem"), overrides=False,
         if not ops:
             ops = [["list_functions"]]
         return {"budget_kb": budget_kb, "shared_meta": shared, "backends": list(backends),
+                "construct": draw(st.sampled_from(["kw", "kw", "config+kw"])),
                 "sweep": draw(st.sampled_from(["full", "none", "none"])), "ops": ops}
 
     return case()
